@@ -168,6 +168,13 @@ func (m *Model) Step(op int) {
 	}
 }
 
+// StepNoEmit records an encode whose size-triggered flush did not go through (the writer refused it): the record is
+// pending, the block is not emitted.
+func (m *Model) StepNoEmit(op int) {
+	m.Pending = append(m.Pending, op)
+	m.PendBytes += len(m.K.RecordBytes(op))
+}
+
 func (m *Model) emit() {
 	if len(m.Pending) == 0 {
 		return
